@@ -38,7 +38,7 @@ func catSetup() {
 		if w.catBind == nil {
 			w.catBind = map[int]*Func{}
 		}
-		if !sameLeaves(f.LeafParams(), catSpecs[f.Cat].LeafParams()) || len(f.Results) != len(catSpecs[f.Cat].Results) || f.HasErr != catSpecs[f.Cat].HasErr || f.ErrIndex() != catSpecs[f.Cat].ErrIndex() {
+		if !sameLeaves(f.LeafParams(), catSpecs[f.Cat].LeafParams()) || len(f.Results) != len(catSpecs[f.Cat].Results) || f.HasErr != catSpecs[f.Cat].HasErr || !reflect.DeepEqual(f.Layout(), catSpecs[f.Cat].Layout()) {
 			panic(fmt.Sprintf("harness: spec f%d does not match catalogue function %d", f.ID, f.Cat))
 		}
 		w.catBind[f.Cat] = f
